@@ -111,6 +111,7 @@ static void mode_live(void){
     int fs=vk_frame_samples(Fs,fidx); vs_fill(&g,in,fs); int len; if(vc_chance(&r,1,3)){ /* full-scale alternating samples: extreme integer data for the SILK kernels */ if(vc_chance(&r,1,3)) for(int i=0;i<fs*ch;i++) in[i]=((i/ch)&1)?1.0f:-1.0f; for(int i=0;i<fs*ch;i++) s16[i]=vc_f2s(in[i]); len=opus_encode(e,s16,fs,pk,1500); } else len=opus_encode_float(e,in,fs,pk,1500);
     if(len>0){ if(vc_chance(&r,1,8)) opus_decode_float(d,NULL,0,out,960,0); else opus_decode_float(d,pk,len,out,5760,0); } }
   vc_count("live_kernel_comparisons",ncmp-before); vc_sig3(cap,(uint64_t)(Fs/4000)|((uint64_t)ch<<4),sig);
+  if(vc_want_sample()) vc_sample("{\"mode\":\"live\",\"arch_cap\":%d,\"Fs\":%d,\"ch\":%d,\"signal\":\"%s\",\"kernel_calls_compared_in_this_case\":%ld}",cap,Fs,ch,vs_names[sig],ncmp-before);
 #ifndef FIXED_POINT
   vc_max("float_kernel_worst_error_over_bound_unit",worst_rel);
 #endif
